@@ -6,7 +6,8 @@
    `Err`): never `Panic`, never `OutOfFuel`; the number of loop iterations `t` is linear in
    |bs| and the number of appended elements is at most `t`. *)
 From V.lib Require Import Base.
-From V.c16 Require Import C16Model C16WalkProofs.
+From V.c13 Require Import C13Model.
+From V.c16 Require Import C16Model C16WalkProofs C16ReaderProofs C16SeiProofs.
 
 (* ------------------------------------------------------------------ avc *)
 Theorem C16_avc_GetNalusFromSample_total : forall bs : list N,
@@ -87,6 +88,61 @@ Theorem C16_hevc_GetParameterSets_total : forall bs : list N,
 Proof. exact hevc_get_ps_total. Qed.
 Print Assumptions C16_hevc_GetParameterSets_total.
 
+(* ------------------------------------------------------------------ the EBSP bit reader (model of C13)
+   rwf s: position inside the data and fewer than 8 pending bits (true initially, preserved by reads) *)
+(* Read(n) on any well-formed, error-free state: the byte-fill loop never runs out of fuel; the result
+   is the sticky error or a well-formed state with at least n fewer unread bits *)
+Theorem C16_reader_Read_total : forall (esc : bool) (s : rstate) (n : N),
+  rwf s -> rerr s = false ->
+  let '(v, s1) := read_gen esc s n in
+  rdata s1 = rdata s /\
+  (rerr s1 = true \/ (rerr s1 = false /\ rwf s1 /\ bits_left s1 + n <= bits_left s)).
+Proof. exact read_gen_inv. Qed.
+Print Assumptions C16_reader_Read_total.
+
+(* ReadExpGolomb: the leading-zero loop ends before its fuel (lz_loop <> None) after at most
+   bits_left iterations, for every input; the state ends in error or with strictly fewer bits *)
+Theorem C16_reader_ReadExpGolomb_total : forall s : rstate,
+  rwf s -> rerr s = false ->
+  exists lz s1, lz_loop (S (8 * length (rdata s) + 8)) s 0 = Some (lz, s1) /\ lz <= bits_left s /\
+  let '(v, s2) := read_ue s in
+  rdata s2 = rdata s /\ (rerr s2 = true \/ (rerr s2 = false /\ rwf s2 /\ bits_left s2 < bits_left s)).
+Proof. exact read_ue_total. Qed.
+Print Assumptions C16_reader_ReadExpGolomb_total.
+
+(* after the first error every read returns 0 in O(1) and leaves the state alone *)
+Theorem C16_reader_sticky_error : forall (esc : bool) (s : rstate) (n : N),
+  rerr s = true -> read_gen esc s n = (0, s) /\ read_ue s = (0, s).
+Proof. exact (fun esc s n H => conj (read_gen_after_error esc s n H) (read_ue_after_error s H)). Qed.
+Print Assumptions C16_reader_sticky_error.
+
+(* ------------------------------------------------------------------ count-driven loops
+   the repaired shape `for i <= count { read...; append; if AccError != nil { break } }` is total for
+   EVERY count: iterations and appends are bounded by the unread bits, not by the count *)
+Theorem C16_guarded_count_loop_total : forall fuel count i common w s nal inc t,
+  rok s -> (rerr s = false -> bits_left s + 1 < N.of_nat fuel) -> (0 < fuel)%nat ->
+  exists nal' inc' s' t',
+    du_loop fuel count i common w s nal inc t = Ok (nal', inc', s', t') /\
+    rdata s' = rdata s /\ t <= t' /\
+    (rerr s = false -> t' - t <= bits_left s + 1) /\ (rerr s = true -> t' - t <= 1) /\
+    lenN nal' <= lenN nal + (t' - t) /\ lenN inc' <= lenN inc + (t' - t).
+Proof. exact du_loop_total. Qed.
+Print Assumptions C16_guarded_count_loop_total.
+
+(* the pinned shape (no break) is refuted: empty payload, count 2^20, fuel 100x linear *)
+Theorem C16_unguarded_count_loop_refuted :
+  exists payload count, du_loop_unguarded (du_fuel payload * 100) count 0 (rinit payload) [] = OutOfFuel.
+Proof. exact du_loop_unguarded_refuted. Qed.
+Print Assumptions C16_unguarded_count_loop_refuted.
+
+(* sei.DecodePicTimingHevcSEI: every payload, every external parameter set *)
+Theorem C16_sei_DecodePicTimingHevcSEI_total : forall (p : hpt_params) (payload : list N),
+  exists fields nal inc e t,
+    decode_pic_timing_hevc p payload = Ok (fields, nal, inc, e, t) /\
+    t <= 8 * lenN payload + 8 /\ lenN nal <= t /\ lenN inc <= t.
+Proof. exact decode_pic_timing_hevc_total. Qed.
+Print Assumptions C16_sei_DecodePicTimingHevcSEI_total.
+
 (* ------------------------------------------------------------------ the statements are not vacuous:
    the model computes on the hostile witnesses of DESIGN Appendix A and on a well-formed sample *)
 Example ex_wrap_witness_is_error :
@@ -113,3 +169,12 @@ Example ex_well_formed :
   avc_is_idr_sample s = Ok (true, 3) /\
   convert_sample_to_byte_stream s = Ok ([0;0;0;1; 103;66;  0;0;0;1; 104;  0;0;0;1; 101;136;128], 3).
 Proof. vm_compute. repeat split. Qed.
+
+(* a hostile count of 2^31-1 in a 9-byte payload: one iteration, then the read error ends the loop *)
+Example ex_pic_timing_hostile_count :
+  decode_pic_timing_hevc (mkHP false true true true 0 0 0 0) [0; 0; 0; 0; 32; 0; 0; 0; 0] =
+  Ok ([0; 0; 0; 0; 0; 0; 2147483647; 0; 0], [0], [0], true, 1).
+Proof. vm_compute. reflexivity. Qed.
+
+Example ex_rwf_initial : rwf (rinit [1; 2; 3]) /\ rerr (rinit [1; 2; 3]) = false.
+Proof. split; [apply rwf_init|reflexivity]. Qed.
